@@ -60,6 +60,19 @@ NAME_PERMS = [
     {"A": "t9", "B": "t10", "C": "T1", "D": "_t"},
 ]
 
+# concrete names of the abstract files, per variant: plain; a decomposed (NFD) name next to its composed (NFC) twin -
+# two different files on the file systems gwf runs on; a name with a space and one with a compatibility singleton
+FNAMES = [
+    {},
+    {"f1": "re\u0301sume\u0301.txt", "f2": "r\u00e9sum\u00e9.txt"},
+    {"f1": "data set.txt", "f3": "\u2126-table.tsv", "f2": "F2"},
+]
+
+
+def fname(f, variant):
+    return FNAMES[variant % len(FNAMES)].get(f, f)
+
+
 SHAPES = ["list", "str", "nested", "dict", "dictE", "tuple", "gen", "mapview", "chainmap"]
 
 
@@ -182,14 +195,14 @@ def drive_api(item):
         shapes[t] = [si, so]
         tg = Target(
             name=perm[t],
-            inputs=shape(sorted(scn["in"][t]), si),
-            outputs=shape(sorted(scn["out"][t]), so),
+            inputs=shape([fname(f, variant) for f in sorted(scn["in"][t])], si),
+            outputs=shape([fname(f, variant) for f in sorted(scn["out"][t])], so),
             options={},
             working_dir="/p",
             spec=SPEC_TEXT % t,
         )
         targets.append(tg)
-    fs = DictFS({"/p/" + f: (None if m < 0 else 1000.0 + m) for f, m in scn["fs"].items()})
+    fs = DictFS({"/p/" + fname(f, variant): (None if m < 0 else 1000.0 + m) for f, m in scn["fs"].items()})
     # state files
     bmap = {
         "S": BackendStatus.SUBMITTED,
